@@ -1,6 +1,7 @@
 package sym
 
 import (
+	"os"
 	"fmt"
 	"go/token"
 	"go/types"
@@ -572,7 +573,18 @@ func (e *Engine) evalPure(st *State, fr *Frame, fn *ssa.Function, bind []Value, 
 			}
 			return e.C.Ite(l, build(lo, mid, depth+1), build(mid, hi, depth+1))
 		}
-		return build(0, len(outs), 0)
+		r := build(0, len(outs), 0)
+		if r.IsFalse() && os.Getenv("GVC_DEBUG_FALSE") != "" {
+			fmt.Fprintf(os.Stderr, "EVALPURE-FALSE %s: %d paths\n", fn.Name(), len(outs))
+			for _, o := range outs {
+				var cs []string
+				for _, cnd := range o.conds {
+					cs = append(cs, e.C.Show(cnd))
+				}
+				fmt.Fprintf(os.Stderr, "   conds=%v  v=%s\n", cs, e.C.Show(o.v.(*smt.Term)))
+			}
+		}
+		return r
 	}
 	res := outs[len(outs)-1].v
 	for i := len(outs) - 2; i >= 0; i-- {
@@ -940,9 +952,41 @@ func (e *Engine) applyContract(st *State, fr *Frame, fc *FnContract, args []Valu
 	savedPre := st.Pre
 	st.Pre = pre
 	for _, en := range fc.Ensures {
-		st.Assume(e.evalClause(st, fr, en, env).(*smt.Term))
+		t := e.evalClause(st, fr, en, env).(*smt.Term)
+		if t.IsFalse() && os.Getenv("GVC_DEBUG_FALSE") != "" {
+			fmt.Fprintf(os.Stderr, "ENSURES-FALSE %s [%s] at %s\n", fc.Key, en.C.Label, e.pos(pos))
+		}
+		st.Assume(t)
 	}
 	st.Pre = savedPre
+	// whatever a call returns exists afterwards: non-nil pointers and the backing arrays of
+	// slices among the results are allocated in the post-state (objects the contract calls
+	// fresh were not allocated before the call, so without this a later load of such a
+	// reference from the heap - which assumes "nil or allocated" - would be contradictory)
+	var mark func(v Value, t types.Type)
+	mark = func(v Value, t types.Type) {
+		switch x := v.(type) {
+		case *smt.Term:
+			if x.Sort != smt.BV64 {
+				return
+			}
+			switch under(t).(type) {
+			case *types.Pointer, *types.Map, *types.Chan:
+				a := e.allocMap(st)
+				st.Heap["$alloc"] = e.C.Ite(e.C.Eq(x, e.i64(0)), a, e.C.Store(a, x, e.C.True()))
+			}
+		case *SliceV:
+			if x.Conc == nil {
+				a := e.allocMap(st)
+				st.Heap["$alloc"] = e.C.Ite(e.C.Eq(x.Region, e.i64(0)), a, e.C.Store(a, x.Region, e.C.True()))
+			}
+		}
+	}
+	for i, r := range results {
+		if i < len(fc.RTypes) && os.Getenv("GVC_NO_MARK") == "" {
+			mark(r, fc.RTypes[i])
+		}
+	}
 	e.Stats["contract-applications"]++
 	return results
 }
